@@ -47,6 +47,8 @@ pub struct Client {
     pub nc_filter: Arc<dyn CKBProtocolContext + Sync>,
     pub nc_sync: Arc<dyn CKBProtocolContext + Sync>,
     pub nc_relay: Arc<dyn CKBProtocolContext + Sync>,
+    /// every message delivered so far (drivers for C10 mutate them); off unless Some
+    pub corpus: Option<Vec<(Proto, P2pBytes)>>,
 }
 
 #[derive(Clone, Copy, Debug, PartialEq, Eq)]
@@ -114,6 +116,7 @@ impl Client {
             nc_sync: Ctx::new(Arc::clone(&net), SupportProtocols::Sync),
             nc_relay: Ctx::new(Arc::clone(&net), SupportProtocols::RelayV2),
             net,
+            corpus: None,
         }
     }
 
@@ -176,6 +179,11 @@ impl Client {
         }
     }
     pub fn deliver(&mut self, proto: Proto, peer: PeerIndex, data: P2pBytes) -> Result<(), String> {
+        if let Some(c) = self.corpus.as_mut() {
+            if c.len() < 400 {
+                c.push((proto, data.clone()));
+            }
+        }
         match proto {
             Proto::Lc => {
                 let nc = Arc::clone(&self.nc_lc);
